@@ -49,6 +49,8 @@ pub struct Done {
     pub c2: Option<ICres>,
     /// (variant name, result): args/fold, args/nofold, lit/fold, lit/nofold
     pub runs: Vec<(&'static str, RRes)>,
+    /// Sierra statements of g_k with const folding on / off
+    pub g_size: [usize; 2],
 }
 
 /// The property itself on the implementation: `None` if the case satisfies C07.
@@ -138,6 +140,7 @@ fn main() {
     let results: Mutex<BTreeMap<usize, Result<Vec<Done>, String>>> = Mutex::new(BTreeMap::new());
     let n_threads = std::thread::available_parallelism().map(|n| n.get()).unwrap_or(4).clamp(2, 8);
     let prog_dir = format!("{out}/prog");
+    let _ = std::fs::remove_dir_all(&prog_dir);
     std::fs::create_dir_all(&prog_dir).unwrap();
     std::thread::scope(|s| {
         for _ in 0..n_threads {
@@ -247,6 +250,9 @@ fn main() {
     write!(sum, "\"const_items\": {}, ", done.iter().map(|d| d.c1.is_some() as usize + d.c2.is_some() as usize).sum::<usize>()).unwrap();
     write!(sum, "\"runs\": {}, ", done.iter().map(|d| d.runs.len()).sum::<usize>()).unwrap();
     write!(sum, "\"oracle_failures\": {n_fail}, \"shards\": {n_shards}, ").unwrap();
+    let with_lits = done.iter().filter(|d| d.g_size[1] > 0 && (d.case.leg != "lf" || d.case.class != "lf_both_runtime")).count();
+    let smaller = done.iter().filter(|d| d.g_size[1] > 0 && d.g_size[0] < d.g_size[1] && (d.case.leg != "lf" || d.case.class != "lf_both_runtime")).count();
+    write!(sum, "\"functions_with_literal_operands\": {with_lits}, \"of_which_smaller_with_const_folding\": {smaller}, ").unwrap();
     write!(sum, "\"harness_errors\": [{}], ", harness_errors.iter().map(|e| json_str(e)).collect::<Vec<_>>().join(", ")).unwrap();
     write!(sum, "\"wall_s\": {:.1}, ", t0.elapsed().as_secs_f64()).unwrap();
     write!(
